@@ -21,14 +21,14 @@ def jobs(tier):
             if not doc and not fcfg:
                 continue
             js.append({"id": f"O3.history.doc{doc}.fields{fcfg}.written-at-creation", "func": "VerifH_C11_History",
-                       "conf": {"doc": doc, "fcfg": fcfg, "class": 0}, "_obligation": "O1+O3", "_covers": ["history"], "unwind": 60})
+                       "conf": {"doc": doc, "fcfg": fcfg, "class": 0, "c04": 0}, "_obligation": "O1+O3", "_covers": ["history"], "unwind": 60})
             js.append({"id": f"O3.history.doc{doc}.fields{fcfg}.first-written-by-update", "func": "VerifH_C11_History",
-                       "conf": {"doc": doc, "fcfg": fcfg, "class": 1}, "_obligation": "O3", "_covers": ["history"], "unwind": 60,
+                       "conf": {"doc": doc, "fcfg": fcfg, "class": 1, "c04": 0}, "_obligation": "O3", "_covers": ["history"], "unwind": 60,
                        "_expect": "known:" + KF, "_known_labels": ["update-stored-block-is-not-plaintext", "update-stored-block-carries-encryption-link"]})
-    js.append({"id": "O3.history.no-encryption", "func": "VerifH_C11_History", "conf": {"doc": 0, "fcfg": 0, "class": 2},
+    js.append({"id": "O3.history.no-encryption", "func": "VerifH_C11_History", "conf": {"doc": 0, "fcfg": 0, "class": 2, "c04": 0},
                "_obligation": "O1", "_covers": ["history"], "unwind": 60})
     for doc in (0, 1):
-        js.append({"id": f"O3.mixed-heads.doc{doc}", "func": "VerifH_C11_MixedHeads", "conf": {"doc": doc}, "_obligation": "O3", "_covers": ["mixed"], "unwind": 300})
+        js.append({"id": f"O3.mixed-heads.doc{doc}", "func": "VerifH_C11_MixedHeads", "conf": {"doc": doc, "c04": 0}, "_obligation": "O3", "_covers": ["mixed"], "unwind": 300})
     js.append({"id": "twin", "func": "VerifH_C11_Reach", "conf": {}, "_obligation": "vacuity", "_expect": "twin", "_covers": ["end"]})
     return js
 
